@@ -561,7 +561,7 @@ class Sandbox:
         self._module_overrides['__builtins__'] = builtins
         # Handle allowing *actual* printing to the real stdout console
         if self._module_overrides['__builtins__'].get('print') is not True:
-            self._current_stdout.append(io.StringIO())
+            self._current_stdout.append(mocked.CapturedOutput())
         else:
             self._current_stdout.append(PrintingStringIO())
         # And do the patches. The module table goes last: starting the other two
@@ -578,7 +578,7 @@ class Sandbox:
         self._stop_patches()
         current_stdout = self._current_stdout.pop()
         # The student may have closed the stream they were printing to
-        captured = "" if current_stdout.closed else current_stdout.getvalue()
+        captured = current_stdout.captured_text()
         self.append_output(captured, context)
 
     # Patching Functionality
